@@ -104,6 +104,12 @@ Proof.
   - unfold TI, Bound, Live. rewrite Ep. repeat split; auto; discriminate.
 Qed.
 
+Lemma TI_cancel t0 T c : TI t0 T c -> TI t0 T (cancel_download c).
+Proof.
+  intros Hti. pose proof Hti as (HT & (B1 & _) & _). unfold cancel_download.
+  destruct (c_phase c); try exact Hti; apply TI_finish; auto. destruct (c_fut c); exact B1.
+Qed.
+
 Lemma TI_step t0 T c e : TI t0 T c -> TI t0 T (step H json_loads c e).
 Proof.
   intro Hti. unfold step. destruct e; cbn [step_with].
@@ -120,6 +126,7 @@ Proof.
     + destruct Bd as (B1 & B2 & B3). unfold Bound. cbn. auto.
     + intros d' Hp. cbn in Hp |- *. exact (Dr d' Hp).
   - destruct (c_open c); [|exact Hti]. eapply TI_same; try exact Hti; reflexivity.
+  - apply TI_drain, TI_cancel. exact Hti.
 Qed.
 
 Lemma TI_run t0 T : forall evs c, TI t0 T c -> TI t0 T (run H json_loads c evs).
@@ -167,6 +174,12 @@ Proof.
     try (destruct (c_fut c); try reflexivity);
     try (match goal with |- c_now (finish ?r ?x) = _ => destruct (ptn_finish r x) as (_ & A & _); rewrite A end; reflexivity).
 Qed.
+Lemma now_cancel c : c_now (cancel_download c) = c_now c.
+Proof.
+  unfold cancel_download. destruct (c_phase c); try reflexivity;
+    match goal with |- c_now (finish ?r ?x) = _ => destruct (ptn_finish r x) as (_ & A & _); rewrite A end; try reflexivity.
+  destruct (c_fut c); reflexivity.
+Qed.
 Lemma now_step c e : c_now (step H json_loads c e) = c_now c + match e with EvAdvance dt => Z.max dt 0 | _ => 0 end.
 Proof.
   unfold step. destruct e; cbn [step_with].
@@ -178,6 +191,7 @@ Proof.
   - rewrite now_drain. lia.
   - rewrite now_drain, now_fire. cbn. rewrite now_drain. lia.
   - destruct (c_open c); cbn; lia.
+  - rewrite now_drain, now_cancel. lia.
 Qed.
 Lemma now_run : forall evs c, c_now (run H json_loads c evs) = c_now c + elapsed evs.
 Proof.
